@@ -72,7 +72,13 @@ class Sys:
         ins(r'^<[SP] as (spawner::)?Spawner<(Self|A)>>::(spawn_future|sleep|spawn_actor)', self.m_spawner_dispatch)
         ins(r'^tokio::spawn::<', self.m_tokio_spawn)
         ins(r'^tokio::time::sleep$', self.m_tokio_sleep)
-        ins(r'^<M as Clone>::clone$', self.m_msg_clone)
+        ins(r'^<[MT] as Clone>::clone$', self.m_msg_clone)
+        ins(r'^HashMap::<.*>::values$', self.m_map_values)
+        ins(r'^<std::iter::FilterMap<.*> as Iterator>::collect::<Vec<', self.m_collect_vec)
+        ins(r'^<&Vec<.*> as IntoIterator>::into_iter$', self.m_slice_iter)
+        ins(r'^<std::slice::Iter<.*> as Iterator>::next$', S.m_veciter_next)
+        ins(r'^Vec::<.*>::len$', lambda e, st, fr, t, a: VScalar(len(deref_arg(e, st, a[0]).extra['items'])))
+        ins(r'^HashMap::<.*>::retain::<', self.m_map_retain)
         ins(r'^std::result::Result::<.*>::is_err$', lambda e, st, fr, t, a: VScalar(e.discriminant_of(st, deref_arg(e, st, a[0])).v == 1) if not isinstance(e.discriminant_of(st, deref_arg(e, st, a[0])).v, int) else VScalar(e.discriminant_of(st, deref_arg(e, st, a[0])).v == 1))
         ins(r'^std::result::Result::<.*>::is_ok$', lambda e, st, fr, t, a: VScalar(e.discriminant_of(st, deref_arg(e, st, a[0])).v == 0))
         # hannibal's own functions: inline the MIR body (last resort model)
@@ -152,6 +158,40 @@ class Sys:
         snap = st.alloc(VAgg(name='VecSnapshot', fields={('f', i): x for i, x in enumerate(v.extra['items'])}))
         return VAgg(name='VecIter', extra={'items': tuple(VRef(('obj', snap), (('f', i),), False) for i in range(len(v.extra['items']))), 'idx': 0, 'owning': False})
 
+    def m_map_values(self, e, st, fr, t, args):
+        ref, mp = S._map_at(e, st, args[0])
+        if mp is None:
+            return NotImplemented
+        items = tuple(VRef(ref.root, ref.path + (('f', i),), False) for i, k in enumerate(mp.extra['keys']) if k is not None)
+        return VAgg(name='VecIter', extra={'items': items, 'idx': 0, 'owning': False})
+
+    def m_collect_vec(self, e, st, fr, t, args):
+        it = args[0]
+        if not (isinstance(it, VAgg) and it.name == 'VecIter'):
+            return NotImplemented
+        return VAgg(name='Vec', extra={'items': tuple(it.extra['items'][it.extra['idx']:])})
+
+    def m_map_retain(self, e, st, fr, t, args):
+        ref, mp = S._map_at(e, st, args[0])
+        if mp is None:
+            return NotImplemented
+        keys = list(mp.extra['keys'])
+        for i, k in enumerate(keys):
+            if k is None:
+                continue
+            r = self.call_closure_sync(st, args[1], [VSym(f"key:{k}"), VRef(ref.root, ref.path + (('f', i),), True)])
+            b = e.as_int_expr(r)
+            if not isinstance(b, int):
+                raise Unsupported("symbolic retain predicate")
+            if not b:
+                cur = _load(e, st, ref)
+                old = cur.fields[('f', i)]
+                ks = list(cur.extra['keys'])
+                ks[i] = None
+                _store(e, st, ref, VAgg(name='HashMap', fields={**cur.fields, ('f', i): TOMB}, extra={'keys': tuple(ks)}))
+                e.dropper.drop(st, old, 'HashMap::retain removed the entry')
+        return UNIT
+
     def m_filter_map(self, e, st, fr, t, args):
         it, f = args
         if not (isinstance(it, VAgg) and it.name == 'VecIter'):
@@ -213,6 +253,10 @@ class Sys:
         return out
 
     def m_default_actor(self, e, st, fr, t, args):
+        if getattr(self, 'service_kind', None) == 'Broker' and t.func.startswith('<Self'):
+            fn = self.resolver.resolve('<Broker<T> as Default>::default')
+            e.push_call(st, fn, [], ret_dest=t.dest, ret_bb=t.target, unwind_bb=t.unwind)
+            return None
         n = st.meta.get('defaults', 0) + 1
         st.meta['defaults'] = n
         st.event('default_actor', n)
@@ -459,6 +503,36 @@ class Sys:
 
     def m_user(self, kind):
         def h(e, st, fr, t, args):
+            if kind == 'handle' and len(args) > 2:
+                actor = deref_arg(e, st, args[0])
+                msg = args[2]
+                if isinstance(actor, VAgg) and actor.name == 'Broker' and isinstance(msg, VAgg) and msg.name in ('Publish', 'Subscribe', 'Unsubscribe'):
+                    fn = self.resolver.resolve(f"<Broker<T> as Handler<{msg.name}<T>>>::handle")
+                    st.event('broker_handle', msg.name, _describe(msg.fields.get(('f', 0))))
+                    e.push_call(st, fn, args, ret_dest=t.dest, ret_bb=t.target, unwind_bb=t.unwind)
+                    return None
+            if kind == 'handle' and len(args) > 2 and isinstance(args[2], VAgg) and args[2].name == 'Msg' \
+                    and str(args[2].extra.get('id', '')).startswith('ctxpub'):
+                # async user code: the handler awaits ctx.publish(topic) - the publish coroutine is the handler future
+                who = self.actor_id(st, args[1])
+                n0 = sum(1 for ev in st.events if ev[0] == 'user_call' and ev[1] == kind) + 1
+                mid = str(args[2].extra['id'])
+                st.event('user_call', kind, n0, who, mid)
+                ctx = args[1]
+                st.meta['next_task_name'] = 'broker'
+                fut = self.sync_call(st, 'context::Context::<A>::publish::<M>', [VRef(ctx.root, ctx.path, False), Msg.new('p' + mid[6:])])
+                st.event('ctx_publish', who, 'p' + mid[6:])
+                return fut
+            if kind == 'started' and len(args) > 1:
+                who = self.actor_id(st, args[1])
+                acts = self.user_script.get(('started_actions', who)) or ()
+                if any(a[0] == 'subscribe' for a in acts):
+                    # async user code: `ctx.subscribe::<M>().await?` - the subscribe coroutine is the started future
+                    n0 = sum(1 for ev in st.events if ev[0] == 'user_call' and ev[1] == kind) + 1
+                    st.event('user_call', kind, n0, who, 'subscribe')
+                    ctx = args[1]
+                    fut = self.sync_call(st, 'context::Context::<A>::subscribe::<M>', [VRef(ctx.root, ctx.path, True)])
+                    return fut
             n = sum(1 for ev in st.events if ev[0] == 'user_call' and ev[1] == kind) + 1
             msg = args[2] if len(args) > 2 else None
             actor = self.actor_id(st, args[1]) if len(args) > 1 else '?'
